@@ -546,4 +546,84 @@ theorem rfftn_irfftn_arr (conj : R → R) (ρs : List (Root R)) (nv : Nat) (s : 
   show compA a c (ishiftR (halfShape s) (fshiftR s m)) = _
   rw [ishiftR_fshiftR s m hm]
 
+/-! ### the real forward transform as one sum -/
+
+/-- phase of the real transform: like `phase` on every axis but the last, where the index is
+not shifted: `Π_{a<last} w_a^(m_a r_a)·wi_a^(⌊n_a/2⌋ r_a) · w_last^(m_last r_last)` -/
+def phaseR : List (Root R) → List Nat → List Nat → List Nat → R
+  | _, [], _, _ => 1
+  | ρs, n :: ns, m, r =>
+    (if ns = [] then (ρs.headD ⟨1, 1, 1⟩).w ^ (m.headD 0 * r.headD 0)
+     else (ρs.headD ⟨1, 1, 1⟩).w ^ (m.headD 0 * r.headD 0) * (ρs.headD ⟨1, 1, 1⟩).wi ^ (n / 2 * r.headD 0)) *
+      phaseR ρs.tail ns m.tail r.tail
+
+omit [CommRing R] in
+theorem tab_succ' {α} (n : Nat) (f : Nat → α) : tab (n + 1) f = f 0 :: tab n (fun a => f (a + 1)) := by
+  simp [tab, List.range_succ_eq_map, Function.comp_def]
+
+theorem fshiftR_cons (n : Nat) (ns : List Nat) (j : Nat) (js : List Nat) :
+    fshiftR (n :: ns) (j :: js) = (if js = [] then j else (j + (n - n / 2)) % n) :: fshiftR ns js := by
+  unfold fshiftR
+  rw [List.length_cons, tab_succ']
+  congr 1
+  · simp only [List.getD_cons_zero]
+    by_cases h : js = []
+    · subst h; simp
+    · have : ¬ (0 + 1 = js.length + 1) := by
+        intro e; apply h; exact List.eq_nil_of_length_eq_zero (by omega)
+      rw [if_neg this, if_neg h]
+  · apply tab_congr
+    intro a _
+    simp only [List.getD_cons_succ]
+    by_cases h : a + 1 = js.length
+    · rw [if_pos h, if_pos (by omega)]
+    · rw [if_neg h, if_neg (by omega)]
+
+theorem halfShape_cons (n : Nat) (ns : List Nat) (h : ns ≠ []) : halfShape (n :: ns) = n :: halfShape ns := by
+  unfold halfShape
+  rw [List.length_cons, tab_succ']
+  congr 1
+  · have : ¬ (0 + 1 = ns.length + 1) := by
+      intro e; apply h; exact List.eq_nil_of_length_eq_zero (by omega)
+    rw [if_neg this]; rfl
+  · apply tab_congr
+    intro a _
+    simp only [List.getD_cons_succ]
+    by_cases h : a + 1 = ns.length
+    · rw [if_pos h, if_pos (by omega)]
+    · rw [if_neg h, if_neg (by omega)]
+
+theorem twProd_fshiftR (ρs : List (Root R)) (ns : List Nat) (hρ : Roots ns ρs) (m r : List Nat)
+    (hm : inRange (halfShape ns) m = true) : twProd ρs ns (fshiftR ns m) r = phaseR ρs ns m r := by
+  induction ns generalizing ρs m r with
+  | nil => simp [twProd, phaseR]
+  | cons n ns ih =>
+    have hlen : m.length = (n :: ns).length := by rw [inRange_length _ _ hm, halfShape_length]
+    cases m with
+    | nil => simp at hlen
+    | cons j js =>
+      obtain ⟨hr, hrs⟩ := hρ
+      rw [fshiftR_cons]
+      simp only [twProd, phaseR, List.headD_cons, List.tail_cons]
+      by_cases hns : ns = []
+      · subst hns
+        have hjs : js = [] := List.eq_nil_of_length_eq_zero (by simpa using hlen)
+        subst hjs
+        simp only [if_true, twProd, phaseR, mul_one]
+        rw [tw_eq _ _ _ _ hr.pow_n]
+      · have hjs : js ≠ [] := by
+          intro e; subst e; apply hns; exact List.eq_nil_of_length_eq_zero (by simpa using hlen.symm)
+        rw [if_neg hjs, if_neg hns]
+        rw [halfShape_cons n ns hns, inRange_cons] at hm
+        rw [tw_shift hr j _ hm.1, ih ρs.tail hrs js r.tail hm.2]
+
+/-- `fftshift(rfftn(a), axes[:-1])[m] = Σ_r a[r] · phaseR(m, r)` -/
+theorem rfftnArr_is_dft (ρs : List (Root R)) (nv : Nat) (a : NDA (List R)) (hρ : Roots a.shape ρs)
+    (m : List Nat) (hm : inRange (halfShape a.shape) m = true) (c : Nat) (hc : c < nv) :
+    compA (rfftnArr ρs nv a) c m = sumBox a.shape fun r => compA a c r * phaseR ρs a.shape m r := by
+  rw [rfftnArr_get _ _ _ _ _ hc, dftN_eq_sumBox]
+  apply sumBox_congr
+  intro r _
+  rw [twProd_fshiftR ρs a.shape hρ m r hm]
+
 end DFV.C11
